@@ -37,9 +37,9 @@ CENSUS = {
     'C13': ['~<BlockFilterRpcImpl as BlockFilterRpc>::get_cells', '~<BlockFilterRpcImpl as BlockFilterRpc>::get_cells_capacity',
             '~<BlockFilterRpcImpl as BlockFilterRpc>::get_transactions'],
     'C14': ['verify_tau', 'verify_total_difficulty'],
-    'C15': ['sample_blocks', 'estimate_k', 'estimate_samples_count', 'multiply', 'FlyClientPDF::gen_x', 'FlyClientPDF::random_sample',
-            'FlyClientPDF::sampling', 'LightClientProtocol::build_prove_request_content',
-            'LightClientProtocol::build_prove_request_content_from_genesis'],
+    'C15': ['+sample_blocks', 'estimate_k', 'estimate_samples_count', 'multiply', 'FlyClientPDF::gen_x', 'FlyClientPDF::random_sample',
+            '+FlyClientPDF::sampling', '+LightClientProtocol::build_prove_request_content',
+            '+LightClientProtocol::build_prove_request_content_from_genesis'],
 }
 
 # handlers: only the guards (and argument provenance) of their state-changing calls are held to the reference ('!')
